@@ -10,6 +10,7 @@ import Gedcom.Lemmas.Listing
 import Gedcom.Lemmas.Legal
 import Gedcom.Props.C01
 import Gedcom.Lemmas.Regex
+import Gedcom.Lemmas.MultiLineLegal
 namespace Gedcom.C02
 open Gedcom Gedcom.Dec
 
@@ -166,26 +167,94 @@ theorem normal_form (o : Opts) (hm : o.allowMultiLine = false) (s : Str) (d : Do
   simp only [Outcome.ok.injEq] at h'
   rw [h']
 
-/-- **Normal form under `AllowMultiLine` (partial).** With continuation lines the decoder returns
-    documents whose values contain line feeds.  For every such document that satisfies the
-    executable condition `legalMLDocB` (C01 `decode_encode_multiline`), re-encoding gives text that
-    decodes — with `AllowMultiLine`, with or without `AllowInvalidIndents` — to the same tree and
-    re-encodes to the same bytes.  What is missing for the full statement is
-    `decode o s = .ok d → legalMLDocB d = true`; it is false exactly for the known finding
-    (a continuation line directly after an INDI/FAM record line gives the record a value), and
-    instead of being proved it is *evaluated by the model on every document the real decoder
-    returns under `AllowMultiLine`* in each run (`legalml` requests: true everywhere except on the
-    finding's shape, where it is false). -/
-theorem normal_form_multiline_partial (o : Opts) (s : Str) (d : Doc) (_h : decode o s = .ok d)
-    (hl : legalMLDocB d = true) (o' : Opts) (hm' : o'.allowMultiLine = true) :
+/-- no INDI or FAM node carries a value (what the property says of record lines; the known finding
+    is the one way the decoder can break it: a continuation line directly after a record line) -/
+def NoRecordValue (d : Doc) : Prop :=
+  ∀ e ∈ listingF 0 d.nodes, isRecordTag e.hdr.tag = true → e.hdr.value = []
+
+/-- **What the decoder returns is legal, with continuation lines too.** For every byte string and
+    every option combination, an accepted stream gives a document that satisfies `legalMLDocB` —
+    tags, pointers, role order as in `Legal`; every value in trimmed form without CR; and every
+    part of a value after a line feed is a line the loop would again take for a continuation at
+    that position — provided no record node has a value.  The proof carries an invariant through
+    the reference pass (`ScanInvML`): the open entry's value is a first part plus continuation
+    parts, and `TrimSpace` only removes white-space bytes from the two ends, which neither turns a
+    continuation part into a node line nor the other way round (`parseLine_extend`,
+    `contOKB_prefix`, `OpenML.trim`). -/
+theorem decode_legalML (o : Opts) (s : Str) (d : Doc) (h : decode o s = .ok d)
+    (hrec : NoRecordValue d) : legalMLDocB d = true := by
+  have hspec := decode_eq_spec o s
+  rw [h] at hspec
+  unfold scan at hspec
+  simp only [Outcome.listing] at hspec
+  split at hspec
+  · rename_i out hrun
+    exfalso
+    have : ∀ (sc : ScanSt) (n : Nat) (ls : List Str) (out : ScanOutcome),
+        scanRun o sc n ls = .inl out → ∀ b l, out ≠ .ok b l := by
+      intro sc n ls
+      induction ls generalizing sc n with
+      | nil => intro out h; simp [scanRun] at h
+      | cons x xs ih =>
+        intro out h b l
+        rw [scanRun] at h
+        cases hs : scanStep o sc x with
+        | next s1 => rw [hs] at h; exact ih s1 (n + 1) out h b l
+        | error => rw [hs] at h; simp only [Sum.inl.injEq] at h; subst h; simp
+        | panic c => rw [hs] at h; simp only [Sum.inl.injEq] at h; subst h; simp
+    exact this _ _ _ _ hrun _ _ hspec.symm
+  · rename_i st hrun
+    simp only [ScanOutcome.ok.injEq] at hspec
+    have hinv0 : ScanInvML ⟨[], none, false⟩ :=
+      ⟨by simp [relL], by simp [ScanSt.entries, famAfterL], by intro e he; simp at he⟩
+    have hinv := scanRun_invML o _ st 1 _ (splitLines_nobreak _) hinv0 hrun
+    have hrel := finish_relML st hinv
+    rw [← hspec.2] at hrel
+    unfold legalMLDocB
+    rw [legalMLF_listing false 0 d.nodes]
+    exact legalMLL_of_rel false _ hrel hrec
+
+/-- **Normal form under `AllowMultiLine`.** Whatever options the stream was decoded with, if the
+    document has no record node with a value then re-encoding it gives text that decodes with
+    `AllowMultiLine` (with or without `AllowInvalidIndents`) to the same tree and re-encodes to the
+    same bytes — including all values that continuation lines made multi-line.  Together with
+    `normal_form` (decoding without `AllowMultiLine`, re-decoding under any options) this is the
+    property's last sentence for all four option combinations, except on the known finding, where
+    it is false (`NoRecordValue` fails there, see the example below); hence `_partial`. -/
+theorem normal_form_multiline_partial (o : Opts) (s : Str) (d : Doc) (h : decode o s = .ok d)
+    (hrec : NoRecordValue d) (o' : Opts) (hm' : o'.allowMultiLine = true) :
     decode o' (encode d) = .ok d ∧
     (∀ d', decode o' (encode d) = .ok d' → encode d' = encode d) := by
-  have hd := C01.decode_encode_multiline d hl o' hm'
+  have hd := C01.decode_encode_multiline d (decode_legalML o s d h hrec) o' hm'
   refine ⟨hd, ?_⟩
   intro d' h'
   rw [hd] at h'
   simp only [Outcome.ok.injEq] at h'
   rw [h']
+
+/-- **The excluded case is real** (the known finding, replayed on the model): the text
+    `0 @I1@ INDI` / `foo` is accepted with `AllowMultiLine`, the INDI node gets the value `foo`,
+    and the re-encoded text `0 @I1@ INDI foo` decodes to an INDI node *without* value — the normal
+    form is not a fixpoint there. -/
+theorem normal_form_multiline_counterexample :
+    ∃ d, decode ⟨true, false⟩ [48,32,64,73,49,64,32,73,78,68,73,10,102,111,111,10] = .ok d ∧
+      decode ⟨true, false⟩ (encode d) ≠ .ok d := by
+  refine ⟨⟨false, [.mk [73,78,68,73] [102,111,111] [73,49] []]⟩, ?_, ?_⟩
+  · simp [decode, stripBOM, BOM, List.isPrefixOf, splitLines, splitLines.go, run, step, parseLine,
+      parsePtr, afterTag, place, unparsable, hdrOf, push, closeTo, closeN, closeOne, trimTop,
+      appendTop, isRoleTag, isRecordTag, tINDI, tFAM, tHUSB, tWIFE, tCHIL, isDigit, isWord, LF, CR,
+      SP, AT, decToNat, trimSpace, trimLeft, trimLeftRev, trimL, prefLen, spaceSeqs, spaceSeqsRev,
+      Frame.close]
+  · have : decode ⟨true, false⟩ (encode ⟨false, [.mk [73,78,68,73] [102,111,111] [73,49] []]⟩) =
+        .ok ⟨false, [.mk [73,78,68,73] [] [73,49] []]⟩ := by
+      simp [encode, encForest, encNode, renderLine, natToDec, decode, stripBOM, BOM,
+        List.isPrefixOf, splitLines, splitLines.go, run, step, parseLine,
+        parsePtr, afterTag, place, unparsable, hdrOf, push, closeTo, closeN, closeOne, trimTop,
+        appendTop, isRoleTag, isRecordTag, tINDI, tFAM, tHUSB, tWIFE, tCHIL, isDigit, isWord, LF, CR,
+        SP, AT, decToNat, trimSpace, trimLeft, trimLeftRev, trimL, prefLen, spaceSeqs, spaceSeqsRev,
+        Frame.close]
+    rw [this]
+    simp
 
 /-- the finding's shape is outside the hypothesis: a record line with a value -/
 example : legalMLDocB ⟨false, [.mk [73, 78, 68, 73] [102, 111, 111] [73, 49] []]⟩ = false := by
